@@ -548,9 +548,14 @@ def b3(e: Engine, rep: Report):
                     not any(ast.unparse(a).endswith('._bounce')
                             for a in n.args)):
                 continue
+            ri = _reply_index(c, n.func.attr, bnames_all)
+            if ri is None or ri >= len(n.args):
+                # the bouncer called here makes up the reply itself: the
+                # site inside it is the one judged
+                continue
             nsites += 1
             rep.evaluations += 1
-            r = n.args[-1]
+            r = n.args[ri]
             # a bouncer that hands on the reply it was given: its callers
             # are the ones judged
             passthrough = mname in bnames_all and isinstance(r, ast.Name) \
@@ -574,6 +579,37 @@ def b3(e: Engine, rep: Report):
                       'whole-message failure')
     if nsites < 3:
         rep.error('anchor vanished: _perm_fail call sites (%d < 3)' % nsites)
+
+
+def _reply_index(c, name, bnames, seen=()):
+    """position (among the call's arguments) of the reply a bouncer quotes:
+    the last parameter of the method that spawns the bounce; for a wrapper
+    the parameter it hands on as that reply, None when it computes it"""
+    m = c.methods.get(name)
+    if m is None or name in seen:
+        return None
+    own = m.params[1:] if m.params[:1] == ['self'] else list(m.params)
+    inner = [x for x in walk_own(m.node) if isinstance(x, ast.Call) and
+             isinstance(x.func, ast.Attribute) and
+             isinstance(x.func.value, ast.Name) and
+             x.func.value.id == 'self' and x.func.attr in bnames and
+             x.func.attr != name and
+             not any(ast.unparse(a).endswith('._bounce') for a in x.args)]
+    if not inner:
+        return len(own) - 1 if own else None
+    idx = set()
+    for x in inner:
+        ri = _reply_index(c, x.func.attr, bnames, seen + (name,))
+        if ri is None or ri >= len(x.args):
+            continue
+        a = x.args[ri]
+        if isinstance(a, ast.Name) and a.id in own and not any(
+                isinstance(y, ast.Name) and y.id == a.id and
+                isinstance(y.ctx, ast.Store) for y in ast.walk(m.node)):
+            idx.add(own.index(a.id))
+        else:
+            idx.add(None)
+    return idx.pop() if len(idx) == 1 else None
 
 
 def truthiness_overloaded(e: Engine, cq: str):
